@@ -1,11 +1,15 @@
 #!/bin/bash
-# run every registered quick check once, sequentially, and record exit code + wall time
+# run every registered check once at the given tier, sequentially; record exit code + wall time
+# usage: tools/time_all.sh <log file> [quick|thorough] [per-check timeout seconds] [ids...]
 cd /verif
-out=${1:-/tmp/time_all.log}; : > $out
-for id in $(ls checks.d | sed 's/.json//' | sort); do
+out=${1:-/tmp/time_all.log}; tier=${2:-quick}; tmo=${3:-3600}; shift 3 2>/dev/null
+ids="$@"; [ -z "$ids" ] && ids=$(ls checks.d | sed 's/.json//' | sort)
+: > $out
+for id in $ids; do
   s=$(date +%s)
-  ./check $id --tier quick > /tmp/time_$id.log 2>&1; rc=$?
+  timeout $tmo ./check $id --tier $tier > /tmp/time_${tier}_$id.log 2>&1; rc=$?
   e=$(date +%s)
-  echo "$id rc=$rc wall=$((e-s))s $(grep -c '^VIOLATION' /tmp/time_$id.log) violations, $(grep -c '^KNOWN-FINDING' /tmp/time_$id.log) known; $(grep '^SUMMARY' /tmp/time_$id.log | tail -1 | cut -c1-160)" >> $out
+  echo "$id tier=$tier rc=$rc wall=$((e-s))s $(grep -c '^VIOLATION' /tmp/time_${tier}_$id.log) violations, $(grep -c '^KNOWN-FINDING' /tmp/time_${tier}_$id.log) known; $(grep '^SUMMARY' /tmp/time_${tier}_$id.log | tail -1 | cut -c1-170)" >> $out
+  cp evidence/$id.json /tmp/evidence_${tier}_$id.json 2>/dev/null
 done
 echo DONE >> $out
